@@ -63,7 +63,10 @@ fn c12_now_reads_realtime_then_monotonic() {
     };
     let r = c.now();
     unsafe {
-        kani::assert(FIRST_ID == CLOCK_REALTIME, "C12.now.first_read_is_realtime");
+        kani::assert(FIRST_ID == libc::CLOCK_REALTIME, "C12.now.first_read_is_realtime");
+        kani::assert(CLOCK_REALTIME == libc::CLOCK_REALTIME, "C12.now.realtime_constant_is_the_os_realtime_clock");
+        kani::assert(CLOCK_MONOTONIC == libc::CLOCK_MONOTONIC_COARSE || CLOCK_MONOTONIC == libc::CLOCK_MONOTONIC,
+                     "C12.now.monotonic_constant_is_an_os_monotonic_clock");
         if fail_at != 1 {
             kani::assert(READS == 2, "C12.now.exactly_two_clock_reads");
             kani::assert(SECOND_ID == CLOCK_MONOTONIC, "C12.now.second_read_is_monotonic");
@@ -79,4 +82,42 @@ fn c12_now_reads_realtime_then_monotonic() {
     kani::cover!(fail_at == 0 && st == 0, "C12.cover.ok_unknown_record");
     kani::cover!(fail_at == 0, "C12.cover.ok");
     kani::cover!(fail_at == 2, "C12.cover.second_fails");
+}
+
+
+// clock_gettime_safe itself, on a C model of clock_gettime(2) (clock_model.c): one system call with
+// the requested clock id; the kernel's reading is returned unchanged; a negative return is an error
+// carrying errno
+extern "C" {
+    static mut verif_clock_calls: i32;
+    static mut verif_clock_id: i32;
+    static mut verif_clock_ret: i32;
+    static mut verif_clock_errno: i32;
+    static mut verif_clock_sec: i64;
+    static mut verif_clock_nsec: i64;
+}
+
+#[kani::proof]
+#[kani::unwind(20)]
+fn c12_clock_gettime_safe_is_one_system_call() {
+    let id: libc::clockid_t = kani::any();
+    let (sec, nsec): (i64, i64) = (kani::any(), kani::any());
+    let fails: bool = kani::any();
+    let en: i32 = kani::any();
+    unsafe {
+        verif_clock_ret = if fails { -1 } else { 0 };
+        verif_clock_errno = en;
+        verif_clock_sec = sec;
+        verif_clock_nsec = nsec;
+    }
+    let r = crate::common::clock_gettime_safe(id);
+    unsafe {
+        kani::assert(verif_clock_calls == 1 && verif_clock_id == id, "C12.clock.one_call_with_the_requested_clock_id");
+    }
+    match r {
+        Ok(t) => kani::assert(!fails && t.tv_sec == sec && t.tv_nsec == nsec, "C12.clock.reading_returned_unchanged"),
+        Err(e) => kani::assert(fails && matches!(e, ShmError::SyscallError(errno::Errno(x), _) if x == en), "C14.clock.failure_is_a_syscall_error_with_errno"),
+    }
+    kani::cover!(fails, "C12.cover.clock_fails");
+    kani::cover!(!fails, "C12.cover.clock_ok");
 }
